@@ -894,9 +894,16 @@ pub fn c06_rt(v: &View) -> Vec<Violation> {
             out.push(viol("C06", "handlers-after-kill", format!("actor {a}: kill() returned at stamp {s}; {entries} message handlers were started afterwards")));
         }
         if av.panic_seq.is_none() && av.started_ok() && av.run_err.is_none() && v.phase_seq[2].is_some() {
-            if let Some((_, _, killed)) = av.stop_begin {
-                if !killed {
-                    out.push(viol("C06", "killed-flag-false", format!("actor {a}: kill() returned before on_stop began, yet killed=false")));
+            if let Some((sb, _, killed)) = av.stop_begin {
+                // The loop decides how the actor ends (graceful stop marker taken / mailbox closed,
+                // or Terminate consumed) some instants before on_stop's entry is stamped; a kill that
+                // lands inside that window meets an actor that has already begun stopping. The
+                // decision is made after the previous hook event of this actor, so only a kill
+                // that had returned before *that* stamp was certainly visible to the (biased)
+                // select that made the decision.
+                let prev = av.hooks.iter().filter(|h| h.0 < sb).map(|h| h.0).max();
+                if !killed && prev.map(|p| s < p).unwrap_or(false) {
+                    out.push(viol("C06", "killed-flag-false", format!("actor {a}: kill() had returned (stamp {s}) before the hook preceding on_stop finished (stamp {}), yet on_stop got killed=false", prev.unwrap())));
                 }
             }
         }
